@@ -246,7 +246,7 @@ Definition ref_print (e : env) (letters path : bytes) (mods : list amod) (pfx sf
   | Some v =>
     match print_value e letters mods v with
     | ChV v' => emit_value e v' pfx sfx raw
-    | ChE _ => ([], e, SNA)
+    | ChE _ => ([], e, SNone)          (* a failing modifier: nothing is printed *)
     | ChNA => ([], e, SNA)
     end
   end.
